@@ -159,6 +159,13 @@ def run_sessions(ck, lab, scs):
     nsteps = 0
     for sc in scs:
         res = results.get(sc["id"])
+        if res is not None and "ROOT-GONE" in (res.get("error") or ""):
+            # an earlier session moved or removed the root directory itself: reported from the syscall trace / the digest;
+            # nothing after it can be judged
+            prev = byid.get(sc["id"] - 1)
+            ck.disagree("ftp/root-directory-gone", "after commands %s the service's root directory no longer exists" % (
+                prev and [(x["c"], path_text(x["p"])) for x in prev["steps"]]), {"level": 2, "steps": prev["steps"] if prev else []})
+            break
         if res is None or res.get("error"):
             raise lib.Infra("session scenario %s: %s" % (sc["id"], res and res.get("error")))
         for k, (st, ob) in enumerate(zip(sc["steps"], res["obs"])):
